@@ -2,6 +2,7 @@
 # Regression over the kept seeded changes: every patch under seeded/ is applied to a scratch copy of the
 # repository, the quick check of the property it was written against is run, and the patch is undone.
 #   vp run --with-repo -- tools/regress.sh          (works on the snapshots, /repo and /verif untouched)
+#   FILTER='^(C04|w3-C04)' restricts it to the changes whose name matches the extended regular expression
 # Output: one line per change (caught / MISSED / does not apply), and seeded/REGRESSION.txt in the snapshot.
 export VERIF_DIR=$PWD
 export GOFLAGS=-mod=mod GOPROXY=off GOSUMDB=off GOTOOLCHAIN=local
@@ -13,6 +14,7 @@ export VERIF_REPO=$REPO
 out=seeded/REGRESSION.txt; : > $out
 for d in seeded/*/; do
   n=$(basename $d); [ -f $d/meta.json ] || continue
+  [ -n "$FILTER" ] && ! echo "$n" | grep -Eq "$FILTER" && continue
   prop=$(python3 -c "import json;print(json.load(open('$d/meta.json'))['property'])")
   if ! git -C $REPO apply --check $PWD/$d/patch.diff 2>/dev/null; then echo "$n $prop does-not-apply" | tee -a $out; continue; fi
   git -C $REPO apply $PWD/$d/patch.diff
